@@ -1642,7 +1642,7 @@ class ReturnAnnotation(Base):
 # MAY_REJECT: the DSL may refuse these designs at elaboration (a pymtl3.dsl.errors exception); if it accepts one, the
 # simulation has to follow the reference under every schedule.
 MAY_REJECT = ("FFVarBit", "FFVarSlice", "FuncCombWriteInFF", "FFAliasWrite", "AliasAssignWrite", "AliasZip", "AliasNestedLoop",
-              "AliasBranch", "AliasComponent", "AliasRebind", "AliasReversed", "AliasAssignFF")
+              "AliasBranch", "AliasComponent", "AliasRebind", "AliasReversed", "AliasAssignFF", "AliasSliceWrite")
 # designs whose SIMULATION is wrong on the unchanged tree (known findings of C01): not subjects of the translation checks
 SIM_KNOWN_WRONG = ()
 
@@ -2297,6 +2297,75 @@ class AliasAugRebind(Base):
       t += s.b
       s.p @= t
       s.q @= s.a
+
+
+@design(lambda st, a, b, sel, en, reset: (None, {"o": (a + 2) & M8, "p": ((a & 0xF0) | (b & 0x0F)) & M8}))
+class TmpSharedObject(Base):
+  """y = x; y @= ...: two local names of one value object (x changes as well); a slice of a local value updated in place"""
+  def construct(s):
+    s.ports()
+    s.o = OutPort(Bits8)
+    s.p = OutPort(Bits8)
+
+    @update
+    def up_tso():
+      x = s.a + 1
+      y = x
+      y @= s.a + 2
+      s.o @= x
+      u = s.a + 0
+      u[0:4] @= s.b[0:4]
+      s.p @= u
+
+
+@design(lambda st, a, b, sel, en, reset: (None, {"o": ((a & 0x0F) | ((b & 0x0F) << 4)) & M8}))
+class AliasSliceWrite(Base):
+  """x = s.w; x[0:4] @= ..: parts of a wire written through a local name"""
+  def construct(s):
+    s.ports()
+    s.o = OutPort(Bits8)
+    s.w = Wire(Bits8)
+
+    @update
+    def up_asw_rd():
+      s.o @= s.w
+
+    @update
+    def up_asw():
+      x = s.w
+      x[0:4] @= s.a[0:4]
+      x[4:8] @= s.b[0:4]
+
+
+def _lvc_ref(st, a, b, sel, en, reset):
+  o = 0
+  for i in range(4):
+    acc = 0
+    for j in range(4):
+      if j < i: acc += bit(a, j)
+    o |= (acc & 3) << (2 * i)
+  return None, {"o": o, "p": (6 * b) & M8}
+
+
+@design(_lvc_ref)
+class LoopVarCompare(Base):
+  """two loop variables compared with each other, and a loop bound that is the outer loop variable"""
+  def construct(s):
+    s.ports()
+    s.o = OutPort(Bits8)
+    s.p = OutPort(Bits8)
+
+    @update
+    def up_lvc():
+      s.o @= 0
+      for i in range(4):
+        for j in range(4):
+          if j < i:
+            s.o[2*i:2*i+2] @= s.o[2*i:2*i+2] + zext(s.a[j], 2)
+      s.p @= 0
+      for i in range(4):
+        for j in range(i):
+          s.p @= s.p + s.b
 
 
 def sequences():
